@@ -1559,7 +1559,7 @@ Qed.
     changes are empty, active relation tables, which become free (and, [St2] holding afterwards, are gone from
     lookups and cache); with an unlimited budget EVERY empty relation table is free afterwards. *)
 Theorem D_shrink_spec : forall s stop0, St2 s ->
-  exists b s', w_shrink stop0 s = Ok b s' /\ St2 s' /\ content_same s s' /\ r2d_tgt_same s s' /\
+  exists b s', w_shrink_core stop0 s = Ok b s' /\ St2 s' /\ content_same s s' /\ r2d_tgt_same s s' /\
     w_pool s' = w_pool s /\ w_index s' = w_index s /\ w_istarget s' = w_istarget s /\ side_same s s' /\ frame_user s s' /\
     length (w_tables s') = length (w_tables s) /\
     (forall j t, nth_error (w_tables s) j = Some t -> exists t', nth_error (w_tables s') j = Some t' /\ r2d_tfree t t') /\
@@ -1583,7 +1583,17 @@ Proof.
     destruct (HK aid a k l Ha0 Hk0) as [H0|(g & Hg)]; [left; exact H0|right]. exists g. rewrite (proj1 (A1 (k, g))). exact Hg.
 Qed.
 
-Definition r2d_D1_all := (D_remove_from_targets, r2d_free_step, r2d_any1_spec, r2d_go_spec, D_shrink_spec).
+(** The exported operation: rejected without effect on a locked world, [D_shrink_spec] otherwise. *)
+Theorem D_shrink_spec_w : forall s stop0, St2 s -> is_locked s = false ->
+  exists b s', w_shrink stop0 s = Ok b s' /\ St2 s' /\ content_same s s' /\ r2d_tgt_same s s' /\
+    w_pool s' = w_pool s /\ w_index s' = w_index s /\ w_istarget s' = w_istarget s /\ side_same s s' /\ frame_user s s' /\
+    length (w_tables s') = length (w_tables s) /\
+    (forall j t, nth_error (w_tables s) j = Some t -> exists t', nth_error (w_tables s') j = Some t' /\ r2d_tfree t t') /\
+    (stop0 = false -> forall j t', nth_error (w_tables s') j = Some t' -> t_rels t' <> [] -> t_len t' = 0 -> t_free t' = true) /\
+    (r2d_KeysLive s -> r2d_KeysLive s').
+Proof. intros s stop0 HS Hl. rewrite (shrink_unlocked_eq s stop0 Hl). apply D_shrink_spec. exact HS. Qed.
+
+Definition r2d_D1_all := (D_remove_from_targets, r2d_free_step, r2d_any1_spec, r2d_go_spec, D_shrink_spec, D_shrink_spec_w, shrink_locked_rejected).
 
 (* ================================================================================================ *)
 (** * Package D2: Reset *)
@@ -2462,7 +2472,7 @@ Proof.
   intros Hc. rewrite Hc in H1. discriminate.
 Qed.
 
-Example r2d_ex_shrink_by_theorem : exists b s', w_shrink false r2d_ex_world = Ok b s' /\ St2 s' /\ r2d_KeysLive s' /\
+Example r2d_ex_shrink_by_theorem : exists b s', w_shrink_core false r2d_ex_world = Ok b s' /\ St2 s' /\ r2d_KeysLive s' /\
   (exists t', nth_error (w_tables s') 2 = Some t' /\ t_free t' = true) /\
   live s' (7, 0%N) = true /\ tgt s' (7, 0%N) 3 = Some zero_ent.
 Proof.
